@@ -148,6 +148,8 @@ def run(ctx):
         seen_keys.add(key)
         ctx.finding(key, "%s %s: %s" % (b["desc"]["crystal"], b["desc"]["kind"], b["complaint"]),
                     {"kind": "failing-input", "case": b, "how": "SBC().get_clusters(atoms, seed=seed)[largest].get_cell() -> SymmetryAnalyzer(cell, symmetry_tol)"})
+    import finder_helpers
+    finder_helpers.check(ctx, broken)
     if broken and not ctx.findings:
         ctx.finding("unproved", "theorem no longer checks, no failing crystal found", {"kind": "broken-obligation", "broken": broken}, found_input=False)
     ctx.coverage["broken"] = [{"what": k_, "info": i} for k_, i in broken]
